@@ -124,6 +124,7 @@ def parseEv (e : String) : Option Ev :=
     | [t, "1", h] => do let t ← t.toNat?; let i ← unhexStr h; pure (Ev.recv (base + t) (.testRequest i))
     | [t, "D"] => t.toNat?.map fun t => Ev.recv (base + t) .app
     | [t, "5"] => t.toNat?.map fun t => Ev.recv (base + t) .logout
+    | [t, "G"] => t.toNat?.map fun t => Ev.recv (base + t) .gap
     | _ => none
   | _ => none
 
